@@ -63,6 +63,11 @@ TransferVerdict(c) ==
          THEN   V(o.coarse_swept = GUn, "conf.coarse_sweep")
            \cup V(o.prolonged = ProlongLv(L, G, T, L.U, GUn, R.Uold), "conf.prolong")
            \cup V((h1 /\ zeroF) => o.prolonged = L.U, "prop.down_up_preserves_fixed_point")
+           \* prolong_f: the stored right-hand sides (implicit / explicit part) after the call
+           \cup V(~ o.finter \/ (o.f_impl = ProlongFLv(L, G, T, L.U, GUn, R.Uold).fI /\ o.f_expl = ProlongFLv(L, G, T, L.U, GUn, R.Uold).fE),
+                  "conf.prolong_f")
+           \cup V((o.finter /\ h1 /\ zeroF) => (\A k \in 1 .. L.M : o.f_impl[k] = FI(L, L.U[k]) /\ o.f_expl[k] = FE(L, L.U[k], k)),
+                  "prop.down_up_f_preserves_right_hand_sides")
          ELSE {})
 
 \* ---- complete runs: every converged step holds THE fine collocation solution ------------------------
